@@ -1,7 +1,7 @@
 #!/bin/bash
 # usage: confirm_seed.sh <Cxx> <k> : confirm an agent-produced seeded change against /repo HEAD (+fix commits) and store it
 id="$1"; k="$2"
-srcdir=/tmp/seedout/$id/$k
+srcdir=${SEEDSRC:-/tmp/seedout/$id/$k}
 [ -f "$srcdir/patch.diff" ] || { echo "no patch $srcdir"; exit 2; }
 wt=/tmp/mut/confirm_${id}_$k
 mkdir -p /tmp/mut
